@@ -465,7 +465,7 @@ TIE_POOLS = {
 }
 NESTED = [[], [1, 2], ['a'], {'d': []}, {'d': [['k', 1]]}, [[1], {'d': [['a', [2]]]}],
           {'d': [['x', {'d': [['y', 0]]}], [3, [True]]]}, [None, [[]]]]
-KEYS = ['a', 'b', 'c', 'k', 'a.b', 'x[0]', '', 0, 1, 2, -1, 10, 'd', 'é']
+KEYS = ['a', 'b', 'c', 'k', 'a.b', 'x[0]', '', 0, 1, 2, -1, 10, 'd', 'é', True, False, True, False, 1, 0]
 
 
 def simple_key(k):
@@ -710,7 +710,7 @@ class C02(Prop):
       'Dict write primitive) is tied to the code by correspondence only',
       'sort: key in {None, len, -x, abs, const}; a sort whose comparison fails only on 2-element lists (CPython leaves longer lists in an unspecified order on TypeError)',
   ]
-  assumptions = ['dict keys are str or int (no bool keys); values are None/bool/int/integral float/-0.0/str and nested list/dict of these',
+  assumptions = ['dict keys are str, int or bool (True == 1 as a key; floats are rejected by pg.Dict and outside the property); values are None/bool/int/integral float/-0.0/str and nested list/dict of these',
                  'operations are applied to one root container; nested containers are only read back']
 
   # -- generation ----------------------------------------------------------------------------
